@@ -270,7 +270,7 @@ def WF (i : Instr) : Bool :=
   | .int | .long => isIntArg a fun _ => true
   | .binInt | .ext4 => isIntArg a fun v => decide (-2147483648 ≤ v) && decide (v < 2147483648)
   | .binInt1 => isIntArg a fun v => decide (0 ≤ v) && decide (v < 256)
-  | .binInt2 => isIntArg a fun v => decide (0 ≤ v) && decide (v < 65536)
+  | .binInt2 => isIntArg a fun v => decide (0 ≤ v) && decide (v.toNat < 65536)
   | .long1 | .shortBinString | .shortBinBytes => isBytesArg a fun p => decide (p.length < 256)
   | .long4 | .binString => isBytesArg a fun p => decide (p.length < 2147483648)
   | .float => isBytesArg a fun t => noNl t && pyFloatOk t
@@ -425,11 +425,15 @@ theorem ra_binInt1 (v : Int) (h : 0 ≤ v ∧ v < 256) (rest : List UInt8) :
   simp only [bind, Except.bind, pure, Except.pure, leNat_le, this, e8]
   rw [Nat.mod_eq_of_lt (by omega), Int.toNat_of_nonneg h.1]
 
-theorem ra_binInt2 (v : Int) (h : 0 ≤ v ∧ v < 65536) (rest : List UInt8) :
+theorem ra_binInt2 (v : Int) (h : 0 ≤ v ∧ v.toNat < 65536) (rest : List UInt8) :
     readArg .binInt2 (encodeArg .binInt2 (.int v) ++ rest) = .ok (.int v, rest) := by
   simp only [readArg, encodeArg]
   rw [fixed_le]
-  have : toU 16 v = v.toNat := toU_small 16 v h.1 (by have : ((2 ^ 16 : Nat) : Int) = 65536 := rfl; omega)
+  have : toU 16 v = v.toNat := toU_small 16 v h.1 (by
+    have e : ((2 ^ 16 : Nat) : Int) = ((65536 : Nat) : Int) := rfl
+    rw [e]
+    have := Int.toNat_of_nonneg h.1
+    omega)
   have e8 : (2:Nat) ^ (8 * 2) = 65536 := rfl
   simp only [bind, Except.bind, pure, Except.pure, leNat_le, this, e8]
   rw [Nat.mod_eq_of_lt (by omega), Int.toNat_of_nonneg h.1]
